@@ -19,12 +19,14 @@ type c17Case struct {
 	Motion string `json:"motion"`
 	Count  string `json:"count"`
 	Visual bool   `json:"visual"`
+	Up     int    `json:"up,omitempty"` // multi-line buffers: lines the cursor is moved up from the last one
 	// keys typed in both sessions before the cursor is placed: an operator started and cancelled
 	Prelude string `json:"prelude,omitempty"`
 }
 
 var c17Buffers = []string{"echo hello world", "git commit -m 'x y' --flag", "foo(bar[1]) {baz} <tag>", "a \"quoted (nested) str\" b", "one two  three   four", "x", "ab", "  indented text here", "path/to/file.txt;next",
-	"世界 wörld ok fine", "func(a, b, c) tail", "if [ -f x ]; then echo `cmd`; fi", "a.b.c-d_e", "[[double]] ((paren))", "end."}
+	"世界 wörld ok fine", "func(a, b, c) tail", "if [ -f x ]; then echo `cmd`; fi", "a.b.c-d_e", "[[double]] ((paren))", "end.",
+	"one\ntwo\nthree", "first line here\nsecond (x) line\nthird", "a b\n\nc d"}
 
 func c17Motions() []string {
 	ms := []string{"h", "l", "w", "b", "e", "W", "B", "E", "0", "$", "^", "%", "ge", "gE", "iw", "aw", "iW", "aW", "ia", "aa", "SAME"}
@@ -49,6 +51,11 @@ func c17Gen(r *rand.Rand, tier string, idx int) any {
 	c.Entry = r.Intn(len(c17Buffers))
 	n := len([]rune(c17Buffers[c.Entry]))
 	c.Col = r.Intn(n)
+	if lines := strings.Split(c17Buffers[c.Entry], "\n"); len(lines) > 1 {
+		// multi-line buffer: the cursor is put on one of its lines (k moves up inside the buffer)
+		c.Up = r.Intn(len(lines))
+		c.Col = r.Intn(len([]rune(lines[len(lines)-1-c.Up])) + 1)
+	}
 	if r.Intn(3) == 0 {
 		c.Count = fmt.Sprint(2 + r.Intn(2))
 	}
@@ -74,6 +81,9 @@ func c17Session(env *fw.Env, c *c17Case, op string) (before, after *sess.Snap, r
 	}
 	for _, k := range c.Prelude {
 		add(string(k), "prelude")
+	}
+	for i := 0; i < c.Up; i++ {
+		add("k", "line-up")
 	}
 	add("0", "bol")
 	for i := 0; i < c.Col; i++ {
@@ -122,7 +132,7 @@ func c17Run(env *fw.Env, raw json.RawMessage) fw.Outcome {
 	var c c17Case
 	unmarshal(raw, &c)
 	var o fw.Out
-	ctx := fmt.Sprintf("buffer=%q col=%d count=%q motion=%q visual=%v prelude=%q blink=%v", c17Buffers[c.Entry], c.Col, c.Count, c.Motion, c.Visual, c.Prelude, strings.Contains(c.Inputrc, "blink-matching-paren on"))
+	ctx := fmt.Sprintf("buffer=%q lines-up=%d col=%d count=%q motion=%q visual=%v prelude=%q blink=%v", c17Buffers[c.Entry], c.Up, c.Col, c.Count, c.Motion, c.Visual, c.Prelude, strings.Contains(c.Inputrc, "blink-matching-paren on"))
 	bA, aA, resA, _ := c17Session(env, &c, "d")
 	if !stdFailures(&o, resA, ctx+" operator=d") {
 		o.O.Sample = map[string]any{"ctx": ctx}
